@@ -129,5 +129,6 @@ WireOp(w, op) ==
                     ELSE DeliverData(w1, RepWords(op[2], n))
     [] OTHER -> WFlag(w, "unknown_wire_op")
 
-RunOps(w, ops) == FoldLeft(WireOp, BeginCall(w), ops)
+\* at the return of a call the data received so far is visible in the framebuffer (the burst stays open)
+RunOps(w, ops) == LET w1 == FoldLeft(WireOp, BeginCall(w), ops) IN [w1 EXCEPT !.ctl = ApplyBurst(@)]
 =============================================================================
